@@ -921,7 +921,25 @@ class PureScheduler:                                    # pylint: disable=r0902
     # define the alias for legacy
     orchestrate = run
 
-    async def co_run(self):                       # pylint: disable=R0912,R0915
+    async def co_run(self):
+        """
+        See :meth:`_co_run()` for details; this wrapper only deals with the
+        case where the scheduler is itself cancelled while it runs, which
+        is what happens to a nested scheduler when its enclosing scheduler
+        terminates early (timeout, critical failure, forever job).
+        """
+        try:
+            return await self._co_run()
+        except asyncio.CancelledError:
+            # pass the cancellation on to our own jobs, wait for them,
+            # and shut them down, so that nothing outlives this scheduler
+            await self._tidy_tasks(
+                [job._task for job in self.jobs
+                 if job._task is not None and not job._task.done()])
+            await self.co_shutdown()
+            raise
+
+    async def _co_run(self):                      # pylint: disable=R0912,R0915
 
         """
         The primary entry point for running a scheduler.
